@@ -7,7 +7,7 @@ Definition create_tenant_gas : Z := 1000000000000.
 
 Definition msg_gas (m : smsg) : Z :=
   match m with
-  | MCreateTenant _ _ _ | MCreateTenantMC _ _ _ => basic_gas + create_tenant_gas
+  | MCreateTenant _ _ _ | MCreateTenantMC _ _ _ _ _ => basic_gas + create_tenant_gas
   | _ => basic_gas
   end.
 
